@@ -387,8 +387,9 @@ func undone(b []Step, si int) string {
 	return "over-" + strings.Join(ks, "+")
 }
 
-// run one behaviour (false: stopped at a violation or drift). observeAll: project and compare after every step; else only JournalLen in between and a
-// full comparison at the last step (so the harness' own reads cannot hide a defect by loading data tries).
+// run one behaviour (false: stopped at a violation or drift). observeAll: project and compare after every step; else
+// ("observe-late") only JournalLen in between and a full comparison at the last step - for sampled walks also after
+// every successful Revert - so that the harness' own reads, which load data tries into the holder, cannot hide a defect.
 func (r *accReplayer) run(b []Step, bi int, observeAll bool, pruning bool) (clean bool) {
 	u := newUniverse(b[0])
 	var addrs [][]byte
@@ -400,11 +401,41 @@ func (r *accReplayer) run(b []Step, bi int, observeAll bool, pruning bool) (clea
 	snapReal := map[int]int{0: 0}
 	mode := "observe-all"
 	if !observeAll {
-		mode = "observe-last"
+		mode = "observe-late"
 	}
 	lastIdx := len(b) - 1
+	walk := b[lastIdx].A == "End" // a sampled walk: the second pass also observes at every successful Revert
 	for lastIdx > 0 && b[lastIdx].A == "End" {
 		lastIdx--
+	}
+	// behaviours that start from a committed state: the accounts of `setup` get every key = val, then Commit.
+	// Commit resets the data tries holder; in the second pass nothing is read afterwards, so the calls of the
+	// behaviour meet accounts whose data trie has not been loaded since the commit.
+	if set, ok := b[0].In["setup"].([]interface{}); ok && len(set) > 0 {
+		val := vtrace.Str(b[0].In["val"])
+		var ws []interface{}
+		for _, k := range u.keys {
+			ws = append(ws, map[string]interface{}{"k": k, "v": val})
+		}
+		for _, a := range set {
+			in := M{"a": vtrace.Str(a), "dn": 0, "bal": -1, "owner": "keep", "meta": "keep", "code": "keep", "w": ws}
+			u.learn(in)
+			if err := applyStep(e, u, Step{A: "Save", In: in}, snapReal); err != nil {
+				vtrace.Broken("setup: " + err.Error())
+				return false
+			}
+		}
+		if err := applyStep(e, u, Step{A: "Commit"}, snapReal); err != nil {
+			vtrace.Broken("setup: " + err.Error())
+			return false
+		}
+		if observeAll {
+			real, perr := project(e, u)
+			if perr != nil || len(diff(u, real, b[0].St)) > 0 {
+				r.drift(fmt.Sprintf("the committed start state differs from the specification's: %v %s (behaviour %d)", perr, canon(real), bi), b, 0)
+				return false
+			}
+		}
 	}
 	for si := 1; si <= lastIdx; si++ {
 		st := b[si]
@@ -433,7 +464,7 @@ func (r *accReplayer) run(b []Step, bi int, observeAll bool, pruning bool) (clea
 		if st.A == "Revert" && !wantErr {
 			r.reverts++
 		}
-		if !observeAll && si != lastIdx {
+		if !observeAll && si != lastIdx && !(walk && st.A == "Revert" && !wantErr) {
 			continue
 		}
 		real, perr := project(e, u)
